@@ -5,6 +5,9 @@ import RsMatterVerif.Lemmas.CodecDerLinkX509
 
 * `Fails p l e` — the failing counterpart of `Run`: on every reader whose remaining input is `l`, `p` answers `e`.
 * `x509New_tbs_refused` — `X509Cert::new` answers `InvalidData` on a bare TBSCertificate (what `as_asn1` emits).
+* `cal_days`, `civil_day_bound`, `calOf_agree` — the writer's `civil_from_days` and the `der` crate's `DateTime::new`
+  agree on every instant from the Matter epoch to the end of year 9999.
+* `run_validity_asn1`, `C17.cert_x509_tbs_walk` — `Validity::decode` returns the two instants; one walk over the whole output.
 -/
 namespace Codec.DerRd
 
@@ -275,3 +278,143 @@ theorem calOf_agree (t : Nat) (h1 : MATTER_EPOCH_SECS ≤ t) (h2 : t ≤ MAX_UNI
   omega
 
 end Codec.CertAsn1
+
+/-! ## `Validity::decode` on the output of `as_asn1`, and the composed walk -/
+namespace Codec.CertAsn1
+open Codec Codec.Der
+
+set_option maxRecDepth 10000 in
+/-- the UTCTime / GeneralizedTime the writer emits is the X.509 model's encoding of the same calendar date -/
+theorem timeNode_encTime (e : Nat) (n : Node) (h : MATTER_EPOCH_SECS + e ≤ MAX_UNIX) (hn : timeNode e = some n) :
+    n.encRd = DerRd.encTime (calOf (MATTER_EPOCH_SECS + e)) := by
+  have hM : MAX_UNIX = 253402300799 := rfl
+  obtain ⟨hv, _⟩ := calOf_agree (MATTER_EPOCH_SECS + e) (by omega) h
+  unfold timeNode timeStr at hn
+  dsimp only at hn
+  rw [if_neg (by omega)] at hn
+  unfold DerRd.encTime
+  unfold DerRd.Cal.Valid at hv
+  have hy : (calOf (MATTER_EPOCH_SECS + e)).year = (civilOfUnix (MATTER_EPOCH_SECS + e)).year := rfl
+  by_cases hg : (civilOfUnix (MATTER_EPOCH_SECS + e)).year ≥ 2050
+  · rw [if_pos hg] at hn
+    simp only [Option.map_some, Option.some.injEq] at hn
+    subst hn
+    rw [if_neg (by rw [hy]; omega)]
+    simp only [Node.encRd, DerRd.TAG_GENERALIZED_TIME, calOf, Der.dec4, Der.dec2, DerRd.dec2, Der.digit, List.cons_append,
+      List.nil_append]
+    have h9 : (civilOfUnix (MATTER_EPOCH_SECS + e)).year ≤ 9999 := hv.2.1
+    generalize (civilOfUnix (MATTER_EPOCH_SECS + e)).year = Y at *
+    congr 1
+    simp only [List.cons.injEq, and_true, true_and]
+    omega
+  · rw [if_neg hg] at hn
+    simp only [Option.map_some, Option.some.injEq] at hn
+    subst hn
+    rw [if_pos (by rw [hy]; omega)]
+    simp only [Node.encRd, DerRd.TAG_UTC_TIME, calOf, Der.dec2, DerRd.dec2, Der.digit, List.cons_append, List.nil_append]
+
+/-- **`Validity::decode` on the validity `as_asn1` wrote** returns two `DateTime`s whose second counts are the two
+instants of the TLV certificate (Matter epoch + value; `not-after = 0` is written, as the code does, as
+9999-12-31T23:59:59Z = `DOESNT_EXPIRE`) -/
+theorem run_validity_asn1 (nbv nav : Nat) (nb na : Node) (h1 : MATTER_EPOCH_SECS + nbv ≤ MAX_UNIX)
+    (h2 : MATTER_EPOCH_SECS + nav ≤ MAX_UNIX) (hnb : timeNode nbv = some nb) (hna : timeNode nav = some na) (rest : List Nat) :
+    DerRd.Run DerRd.dValidity (validityBytes nb na ++ rest)
+      (fun y => y.1.secs = MATTER_EPOCH_SECS + nbv ∧ y.2.secs = MATTER_EPOCH_SECS + nav ∧
+        y = ((calOf (MATTER_EPOCH_SECS + nbv)).dt, (calOf (MATTER_EPOCH_SECS + nav)).dt)) rest := by
+  obtain ⟨v1, s1⟩ := calOf_agree (MATTER_EPOCH_SECS + nbv) (by omega) h1
+  obtain ⟨v2, s2⟩ := calOf_agree (MATTER_EPOCH_SECS + nav) (by omega) h2
+  unfold validityBytes
+  rw [timeNode_encTime nbv nb h1 hnb, timeNode_encTime nav na h2 hna]
+  refine (DerRd.run_validity v1 v2).weaken (fun y hy => ?_)
+  subst hy
+  exact ⟨s1, s2, rfl⟩
+
+end Codec.CertAsn1
+
+namespace Codec.DerRd
+
+/-- the walk of `TbsCertificate::decode_value` (`dTbs`) without the attestation profile: SEQUENCE header, nested reader,
+`dTbsHead` (version, serial, signature algorithm, issuer), `Validity::decode`, `dTbsMid` (subject, SubjectPublicKeyInfo); the
+`[3]` extensions element is taken as an `AnyRef` (its interpretation is `ParsedExtensionFields::parse`, see below) -/
+def dTbsWalk (fuel : Nat) : Dec ((List Nat × (Nat × List Nat) × List Nat × (List Nat × DnAttrs)) × (DateTime × DateTime) ×
+    ((List Nat × DnAttrs) × (Option (Nat × List Nat) × BitStr)) × (Nat × List Nat)) := do
+  let len ← dHeaderOf TAG_SEQUENCE
+  dNested len (do
+    let h ← dTbsHead fuel
+    let v ← dValidity
+    let m ← dTbsMid fuel
+    let x ← dAny
+    pure (h, v, m, x))
+
+end Codec.DerRd
+
+namespace C17
+open Codec Codec.Der Codec.CertAsn1
+
+/-- **One walk over the whole `as_asn1` output with the field readers of rs-matter's X.509 parser** (audit C17, 2b).
+For every certificate within the declared bounds with an uncompressed P-256 key, `T::from_der`-style reading of the bytes
+`as_asn1` writes (`SliceReader::new`, the walk, `finish`) succeeds and returns: version 3, the serial, ecdsa-with-SHA256, the
+issuer and subject RDNSequences (= X.509 encoding of the attribute lists `xi`, `xs`; no VID / PID), **the two validity
+instants** (`secs` = Matter epoch + the TLV value; `not-after = 0` ↦ 9999-12-31T23:59:59Z as the code writes it), curve
+P-256, the public key, and the `[3]` element holding the extensions. -/
+theorem cert_x509_tbs_walk (f : Fields) (h : f.Legal) (hpl : f.pubkey.length = 65) (hph : f.pubkey.head? = some 4) :
+    ∃ n xi xs, certNode f = some n ∧ mapO Attr.toX f.issuer = some xi ∧ mapO Attr.toX f.subject = some xs ∧
+      ∀ buf : List Nat, n.need ≤ buf.length → buf.length < 65536 →
+        asAsn1 f.lazy buf = .ok n.enc ∧
+        ∀ fuel, f.issuer.length < fuel + 2 → f.subject.length < fuel + 2 →
+          ∃ a, DerRd.fromDer n.enc (DerRd.dTbsWalk (fuel + 2)) = .ok a ∧
+            a.1 = ([2], (DerRd.TAG_INTEGER, f.serial), DerRd.OID_ECDSA_WITH_SHA256,
+              (DerRd.encRdns xi, { vid := none, pid := none })) ∧
+            a.2.1.1.secs = MATTER_EPOCH_SECS + f.notBefore ∧
+            a.2.1.2.secs = MATTER_EPOCH_SECS + (if f.notAfter = 0 then DOESNT_EXPIRE else f.notAfter) ∧
+            a.2.2.1.1 = (DerRd.encRdns xs, { vid := none, pid := none }) ∧
+            a.2.2.1.2.1 = some (DerRd.TAG_OID, DerRd.OID_PRIME256V1) ∧ a.2.2.1.2.2.bytes = f.pubkey ∧
+            a.2.2.1.2.2.unused = 0 ∧
+            a.2.2.2 = (0xA3, DerRd.encTlv 0x30 (Node.encRdL (f.exts.map extNode))) := by
+  obtain ⟨n, hn⟩ := certNode_some f h
+  have hE : MATTER_EPOCH_SECS = 946684800 := rfl
+  have hM : MAX_UNIX = 253402300799 := rfl
+  have hD : DOESNT_EXPIRE = 252455615999 := rfl
+  have hnb := h.nb
+  have hna := h.na
+  refine ⟨n, ?_⟩
+  obtain ⟨_, _, _, issuer, nb, na, subject, h2, h3, h4, h5, _⟩ := certNode_parts f n hn
+  obtain ⟨xi, i1, _, i3, i4, i5⟩ := dn_encRd f.issuer issuer h.wf.1 h2
+  obtain ⟨xs, s1, _, s3, s4, s5⟩ := dn_encRd f.subject subject h.wf.2.1 h5
+  refine ⟨xi, xs, hn, i1, s1, fun buf hfit hsmall => ?_⟩
+  have hl := lenOk_of_need n (by omega)
+  refine ⟨asAsn1_ok f n buf hn h.wf hl hfit, fun fuel hfi hfs => ?_⟩
+  obtain ⟨xi2, xs2, nb2, na2, a1, a2, a3, a4, _, _, _, _, _, _, a5⟩ := asn1_tbs_layout f n hn h.wf hl
+  rw [i1] at a1; rw [s1] at a2; rw [h3] at a3; rw [h4] at a4
+  cases a1; cases a2; cases a3; cases a4
+  have hmax : n.enc.length ≤ DerRd.MAX_LEN := by
+    have := need_ge n
+    have : DerRd.MAX_LEN = 268435455 := rfl
+    omega
+  have hrun : DerRd.Run (DerRd.dTbsWalk (fuel + 2)) n.enc
+      (fun a => a.1 = ([2], (DerRd.TAG_INTEGER, f.serial), DerRd.OID_ECDSA_WITH_SHA256,
+              (DerRd.encRdns xi, { vid := none, pid := none })) ∧
+            a.2.1.1.secs = MATTER_EPOCH_SECS + f.notBefore ∧
+            a.2.1.2.secs = MATTER_EPOCH_SECS + (if f.notAfter = 0 then DOESNT_EXPIRE else f.notAfter) ∧
+            a.2.2.1.1 = (DerRd.encRdns xs, { vid := none, pid := none }) ∧
+            a.2.2.1.2.1 = some (DerRd.TAG_OID, DerRd.OID_PRIME256V1) ∧ a.2.2.1.2.2.bytes = f.pubkey ∧
+            a.2.2.1.2.2.unused = 0 ∧
+            a.2.2.2 = (0xA3, DerRd.encTlv 0x30 (Node.encRdL (f.exts.map extNode)))) [] := by
+    rw [a5]
+    unfold DerRd.dTbsWalk
+    refine DerRd.Run.of_append_nil ?_
+    refine DerRd.Run.bind (DerRd.run_headerOf DerRd.tagOfByte_seq) (fun len hlen => ?_)
+    subst hlen
+    refine DerRd.run_nested rfl ?_
+    refine DerRd.Run.bind (DerRd.run_tbsHead i3 (i5 _) (by omega)) (fun hd hhd => ?_)
+    refine DerRd.Run.bind (run_validity_asn1 f.notBefore _ nb na (by omega) (by split <;> omega) h3 h4 _) (fun v hv => ?_)
+    refine DerRd.Run.bind (DerRd.run_tbsMid s3 (s5 _) (by omega) hpl hph) (fun m hm => ?_)
+    have hx := DerRd.run_any (tag := 0xA3) (v := DerRd.encTlv 0x30 (Node.encRdL (f.exts.map extNode))) (rest := [])
+      DerRd.tagOfByte_a3
+    simp only [List.append_nil] at hx
+    refine DerRd.Run.bind (by unfold extsBytes; exact hx) (fun x hx2 => ?_)
+    exact DerRd.Run.pure ⟨hhd, hv.1, hv.2.1, hm.1, hm.2.1, hm.2.2.1, hm.2.2.2, hx2⟩
+  obtain ⟨a, ha, hder⟩ := DerRd.fromDer_of_run hrun hmax
+  exact ⟨a, hder, ha⟩
+
+end C17
